@@ -527,10 +527,12 @@ theorem openFollowH_safe (env : Env) (h : ProcH) (base : Procfs.Base) (subpath :
   generalize (if (Path.stripTrailingSlash subpath).2 = true then oflags ||| O_DIRECTORY else oflags) = fl
   split
   · exact FdOk_err _
-  apply Safe.mbind (Q' := fun _ => True) (isOk_safe (readlinkH_safe env h base _ hh))
-  · intro isLink _
+  apply Safe.mbind (Q' := fun _ => True) (try_any (readlinkH_safe env h base _ hh))
+  · intro probe _
     split
-    · exact openH_safe env _ h base _ _ hh
+    · split
+      · exact openH_safe env _ h base _ _ hh
+      · exact FdOk_err _
     · apply Safe.mbind (Q' := fun r => ∀ d n, r = .ok (d, some n) → single n)
       · apply Safe.ofExcept
         intro d n hdn
